@@ -133,6 +133,9 @@ func scenarioFromInfo(ci *CaseInfo) Scenario {
 // scenario itself is never modified (C11 checks aliasing separately, on purpose).
 func (s Scenario) run() (Outcome, []storeCall) {
 	st := newStore(s.Kind, deepCopyBalances(s.Bal), deepCopyMeta(s.Meta), s.FailAt)
+	if len(s.Text)%3 == 1 {
+		st.aliased() // one case in three: equal amounts in an answer are one shared number
+	}
 	vars := map[string]string{}
 	for k, v := range s.Vars {
 		vars[k] = v
